@@ -80,10 +80,11 @@ def gen_case(rnd, idx, forced_ctx=None, forced_root=None, n=None):
         for k, (j, lab, ty) in enumerate(edges[i]):
             fields.append(("f%d" % k, rg.rust(rg.strip_refs(ty))))
         derives = None if i in nonserde else rnd.choice(["Serialize, Deserialize", "Serialize", "Deserialize", "serde::Serialize, serde::Deserialize"])
+        style = rnd.choice(rg.DERIVE_STYLES)
         if kinds[i] == "enum":
-            src = rg.enum_src(names[i], [("A",), ("B",)], derives=derives)
+            src = rg.enum_src(names[i], [("A",), ("B",)], derives=derives, derive_style=style)
         else:
-            src = rg.struct_src(names[i], fields, derives=derives)
+            src = rg.struct_src(names[i], fields, derives=derives, derive_style=style)
         body.setdefault(file_of[i], []).append(src)
     cmds = []
     for r, (target, rk, lab, ty) in enumerate(roots):
@@ -192,7 +193,9 @@ def run_case(a):
             return {"blocked": "rc=%s" % g.run.rc}
         out = g.output
         if "types.ts" not in out.mods or out.mods["types.ts"].errors:
-            return {"blocked": "types.ts unparsable (C01)"}
+            pf = common.parse_fault(out, ("types.ts",)) or ("types.ts missing", "types.ts was not written")
+            return {"viol": [("C07 types.ts-does-not-parse " + pf[0], pf[1])], "n": info["n"], "edges": info["edges"], "files": info["files"], "cycle": info["has_cycle"],
+                    "expected": len(expected), "decoys": len(info["all"]) - len(expected), "witness": proj.witness_of(files, mode)}
         got = declared(out, mode)
         viol = []
         for nm in sorted(expected):
